@@ -17,10 +17,12 @@ def run_case(case, taps='all'):
         m = case['multi']
         return M.run_multi(m['pipes'], m['schedule'], taps=taps)[m['index']]
     if mode == 'mux':
-        return M.run_mux(case['pipe'], case['src'], timescale=case.get('timescale'), taps=taps)
+        return M.run_mux(case['pipe'], case['src'], timescale=case.get('timescale'), taps=taps,
+                         dl_late=case.get('dl_late', False))
     if mode == 'src':
         return M.run_src(case['pipe'], case['src'], complete=case.get('complete', True),
-                         timescale=case.get('timescale'), taps=taps, root=case.get('root', 'store'))
+                         timescale=case.get('timescale'), taps=taps, root=case.get('root', 'store'),
+                         dl_late=case.get('dl_late', False))
     raise C.MachineryError('unknown mode %r' % mode)
 
 
@@ -84,6 +86,10 @@ def judge(V, cases, relevant, stats, family='', keep_traces=None):
         mine = [(p, n) for (p, n) in names if relevant(n)]
         other = [(p, n) for (p, n) in names if not relevant(n)]
         step = steps.get(i, v)[1]
+        if other and any(e.get('t') == 'e' for e in traces[i]['src'] if isinstance(e, dict)):
+            # the source itself ended a key with an error event and created it again: the
+            # lifecycle clauses do not apply to that key at the boundaries it passes through
+            other = [(p_, n_) for (p_, n_) in other if not n_.startswith('proto-')]
         if other:
             stats.setdefault('other_property_clauses', {})
             for _, n in other:
@@ -94,7 +100,7 @@ def judge(V, cases, relevant, stats, family='', keep_traces=None):
                          'pipe': json.dumps(tr['pipe'], sort_keys=True),
                          'mode': tr['mode'], 'src': tr['src'],
                          'timescale': cases[i].get('timescale'), 'multi': cases[i].get('multi'),
-                         'root': cases[i].get('root', 'store'),
+                         'root': cases[i].get('root', 'store'), 'dl_late': cases[i].get('dl_late', False),
                          'clauses': ['%s:%s' % pn for pn in names]},
                         '+'.join(sorted({n for _, n in mine})),
                         detail='first rejected at source step %s' % step)
@@ -116,7 +122,7 @@ def judge(V, cases, relevant, stats, family='', keep_traces=None):
             V.violation({'family': family, 'ops': ' '.join(op_names(tr['pipe'])),
                          'pipe': json.dumps(tr['pipe'], sort_keys=True), 'mode': tr['mode'],
                          'src': tr['src'], 'timescale': c.get('timescale'), 'untapped': True,
-                         'multi': c.get('multi'), 'root': c.get('root', 'store'),
+                         'multi': c.get('multi'), 'root': c.get('root', 'store'), 'dl_late': c.get('dl_late', False),
                          'clauses': ['untapped-differs']}, 'untapped-differs',
                         detail='without inner taps: end=%s out=%s' % (u['end'], json.dumps(ends(u)[0])[:300]))
             stats['untapped_differs'] = stats.get('untapped_differs', 0) + 1
@@ -133,6 +139,7 @@ def replay(prop, path, relevant):
     if w.get('multi'):
         case['multi'] = w['multi']
     case['root'] = w.get('root', 'store')
+    case['dl_late'] = w.get('dl_late', False)
     tr = run_case(case)
     if w.get('untapped'):
         u = run_case(case, taps='ends')
